@@ -410,6 +410,7 @@ def r2_error_discipline(ctx):
 
 
 def _fallback_ok(fk):
+    fk = re.sub(r"(::\{closure#\d+\})+$", "", fk)
     return fk in ("procfs::ProcfsHandle::new", "procfs::ProcfsHandle::new_unmasked", "procfs::ProcfsHandle::open", "utils::dir::remove_inode",
                   "procfs::ProcfsHandle::open::{closure#0}", "utils::dir::remove_inode::{closure#0}")
 
